@@ -10,10 +10,17 @@ fn any_str<const CAP: usize>(buf: &[u8; CAP]) -> Option<&str> {
 fn roundtrip<const N: usize, const CAP: usize>() {
     let buf: [u8; CAP] = kani::any();
     let Some(s) = any_str::<CAP>(&buf) else { return };
+    let accepted = check::<N>(s);
+    kani::cover!(accepted && s.len() == N, "accepted name fills the buffer");
+    kani::cover!(accepted && s.len() > 0 && s.len() < N, "accepted shorter name");
+    kani::cover!(!accepted, "rejected name");
+}
+
+/// The C35 contract for one name: accepted => reads back unchanged; rejected => not storable.
+/// Returns whether the name was accepted (for the callers' reachability witnesses).
+fn check<const N: usize>(s: &str) -> bool {
     match fixed_str_to_bytes::<N>(s) {
         Ok(stored) => {
-            kani::cover!(s.len() == N, "accepted name fills the buffer");
-            kani::cover!(s.len() > 0 && s.len() < N, "accepted shorter name");
             let back = bytes_to_fixed_str::<N>(&stored);
             // Accepted => reads back unchanged.
             match back {
@@ -28,13 +35,14 @@ fn roundtrip<const N: usize, const CAP: usize>() {
                 }
                 Err(_) => panic!("C35: accepted name cannot be read back"),
             }
+            true
         }
         Err(_) => {
-            kani::cover!(true, "rejected name");
             // Rejection is only allowed for names that cannot be stored; anything up to N
             // bytes without NUL must be accepted (otherwise `reject everything` passes).
             let has_nul = s.as_bytes().iter().any(|b| *b == 0);
             assert!(s.len() > N || has_nul, "C35: storable name rejected");
+            false
         }
     }
 }
@@ -55,4 +63,125 @@ fn c35_roundtrip_n4() {
 #[kani::unwind(12)]
 fn c35_roundtrip_n8() {
     roundtrip::<8, 9>();
+}
+
+/// A string of exactly LEN bytes whose characters have the given (concrete) UTF-8 widths and whose
+/// bytes are symbolic within the ranges of well-formed sequences (Unicode Table 3-7; lead bytes are
+/// restricted to those whose continuation bytes all range over 80..=BF: C2..=DF, E1..=EC, F1..=F3).
+/// Length and character boundaries are concrete, so code that walks characters (chars(), char_indices(),
+/// is_char_boundary) stays cheap for the symbolic executor, unlike in `roundtrip` where the length is
+/// symbolic; `c35_shapes_are_utf8` proves with the real core::str::from_utf8 that every such buffer is
+/// valid UTF-8, which is what justifies from_utf8_unchecked in `shaped_check`.
+fn shaped<const LEN: usize>(widths: &[usize]) -> [u8; LEN] {
+    let buf: [u8; LEN] = kani::any();
+    let mut p = 0;
+    for w in widths {
+        let lead = buf[p];
+        match *w {
+            1 => kani::assume(lead >= 1 && lead <= 0x7f),
+            2 => kani::assume(lead >= 0xC2 && lead <= 0xDF),
+            3 => kani::assume(lead >= 0xE1 && lead <= 0xEC),
+            _ => kani::assume(lead >= 0xF1 && lead <= 0xF3),
+        }
+        let mut k = 1;
+        while k < *w {
+            kani::assume(buf[p + k] >= 0x80 && buf[p + k] <= 0xBF);
+            k += 1;
+        }
+        p += *w;
+    }
+    assert!(p == LEN, "harness: widths do not add up to LEN");
+    buf
+}
+
+fn shaped_check<const N: usize, const LEN: usize>(widths: &[usize]) -> bool {
+    let buf = shaped::<LEN>(widths);
+    // SAFETY: valid UTF-8 by construction, proved by c35_shapes_are_utf8.
+    let s = unsafe { std::str::from_utf8_unchecked(&buf) };
+    check::<N>(s)
+}
+
+fn shaped_is_utf8<const LEN: usize>(widths: &[usize]) {
+    let buf = shaped::<LEN>(widths);
+    assert!(std::str::from_utf8(&buf).is_ok(), "harness: shaped buffer is not valid UTF-8");
+}
+
+// Names with multi-byte characters around the capacity: byte length and character count differ, so a
+// limit counted in characters, a copy cut inside a character or a terminator search that is not
+// byte-exact shows up here. (Added after a seeded change -- chars().count() limit + truncating copy --
+// made c35_roundtrip_n4 time out instead of failing: see DESIGN.md section 7.)
+
+//@ prop=C35 tier=quick kind=hold
+//@ enc=gmsol_utils::fixed_str::fixed_str_to_bytes::<4>, gmsol_utils::fixed_str::bytes_to_fixed_str::<4>, core::str::from_utf8
+//@ bound=4-byte buffer; names that fit exactly, built from concrete character widths [1,1,2] [2,2] [1,3] with every well-formed byte value (leads C2..DF, E1..EC, F1..F3, continuations 80..BF, ASCII 01..7F)
+#[kani::proof]
+#[kani::unwind(8)]
+fn c35_multibyte_fits_n4_a() {
+    shaped_check::<4, 4>(&[1, 1, 2]);
+    shaped_check::<4, 4>(&[2, 2]);
+    let accepted = shaped_check::<4, 4>(&[1, 3]);
+    kani::cover!(accepted, "a 4-byte name of two characters is accepted");
+}
+
+//@ prop=C35 tier=quick kind=hold
+//@ enc=gmsol_utils::fixed_str::fixed_str_to_bytes::<4>, gmsol_utils::fixed_str::bytes_to_fixed_str::<4>, core::str::from_utf8
+//@ bound=4-byte buffer; names that fit exactly, concrete character widths [3,1] [4], byte values as in c35_multibyte_fits_n4_a
+#[kani::proof]
+#[kani::unwind(8)]
+fn c35_multibyte_fits_n4_b() {
+    shaped_check::<4, 4>(&[3, 1]);
+    let accepted = shaped_check::<4, 4>(&[4]);
+    kani::cover!(accepted, "a name of one 4-byte character is accepted");
+}
+
+//@ prop=C35 tier=quick kind=hold
+//@ enc=gmsol_utils::fixed_str::fixed_str_to_bytes::<4>, gmsol_utils::fixed_str::bytes_to_fixed_str::<4>, core::str::from_utf8
+//@ bound=4-byte buffer; names of 5 and 6 bytes but at most 4 characters, concrete character widths [1,1,1,2] [2,1,1,1] [1,2,2] [2,3] [1,4] [2,2,2] [3,3] with every well-formed byte value as above
+#[kani::proof]
+#[kani::unwind(8)]
+fn c35_multibyte_too_long_n4() {
+    shaped_check::<4, 5>(&[1, 1, 1, 2]);
+    shaped_check::<4, 5>(&[2, 1, 1, 1]);
+    shaped_check::<4, 5>(&[1, 2, 2]);
+    shaped_check::<4, 5>(&[2, 3]);
+    shaped_check::<4, 5>(&[1, 4]);
+    shaped_check::<4, 6>(&[2, 2, 2]);
+    let accepted = shaped_check::<4, 6>(&[3, 3]);
+    kani::cover!(!accepted, "a 6-byte name of two characters is rejected");
+}
+
+//@ prop=C35 tier=quick kind=hold
+//@ enc=core::str::from_utf8 (validity of the constructed names used by c35_multibyte_*)
+//@ bound=the twelve concrete width shapes used by c35_multibyte_fits_n4_{a,b} / c35_multibyte_too_long_n4, every byte value in the stated ranges
+#[kani::proof]
+#[kani::unwind(8)]
+fn c35_shapes_are_utf8() {
+    shaped_is_utf8::<4>(&[1, 1, 2]);
+    shaped_is_utf8::<4>(&[2, 2]);
+    shaped_is_utf8::<4>(&[1, 3]);
+    shaped_is_utf8::<4>(&[3, 1]);
+    shaped_is_utf8::<4>(&[4]);
+    shaped_is_utf8::<5>(&[1, 1, 1, 2]);
+    shaped_is_utf8::<5>(&[2, 1, 1, 1]);
+    shaped_is_utf8::<5>(&[1, 2, 2]);
+    shaped_is_utf8::<5>(&[2, 3]);
+    shaped_is_utf8::<5>(&[1, 4]);
+    shaped_is_utf8::<6>(&[2, 2, 2]);
+    shaped_is_utf8::<6>(&[3, 3]);
+}
+
+//@ prop=C35 tier=thorough kind=hold
+//@ enc=gmsol_utils::fixed_str::fixed_str_to_bytes::<8>, gmsol_utils::fixed_str::bytes_to_fixed_str::<8>, core::str::from_utf8
+//@ bound=8-byte buffer; names of 8 and 9 bytes with concrete character widths [1x6,2] [2,2,2,2] [4,4] [1,1,3,3] / [1x7,2] [3,3,3] [4,4,1] and every well-formed byte value as above
+#[kani::proof]
+#[kani::unwind(12)]
+fn c35_multibyte_n8() {
+    shaped_check::<8, 8>(&[1, 1, 1, 1, 1, 1, 2]);
+    shaped_check::<8, 8>(&[2, 2, 2, 2]);
+    shaped_check::<8, 8>(&[4, 4]);
+    shaped_check::<8, 8>(&[1, 1, 3, 3]);
+    shaped_check::<8, 9>(&[1, 1, 1, 1, 1, 1, 1, 2]);
+    shaped_check::<8, 9>(&[3, 3, 3]);
+    let accepted = shaped_check::<8, 9>(&[4, 4, 1]);
+    kani::cover!(!accepted, "a 9-byte name of three characters is rejected");
 }
